@@ -6,12 +6,16 @@
 (* not raise an alarm): the verdict is decided here.                        *)
 EXTENDS RegionName, SequencesExt, TLC, Json
 T == ndJsonDeserialize("scan_trace.ndjson")
-VARIABLES i, cfg, outs, disturbed, endOpen
-vars == <<i, cfg, outs, disturbed, endOpen>>
+VARIABLES i, cfg, outs, disturbed, endOpen, deadReq
+vars == <<i, cfg, outs, disturbed, endOpen, deadReq>>
 Dummy == [rows |-> <<>>, start |-> <<>>, stop |-> <<>>, reversed |-> FALSE, partial |-> FALSE]
-Init == i = 1 /\ cfg = Dummy /\ outs = <<>> /\ disturbed = FALSE /\ endOpen = <<>>
+Init == i = 1 /\ cfg = Dummy /\ outs = <<>> /\ disturbed = FALSE /\ endOpen = <<>> /\ deadReq = FALSE
 Next ==
   /\ i <= Len(T) /\ i' = i + 1
+  \* a continuation request (not a close, not a lease renewal) for a region scanner the server does not have (any more): the
+  \* servers of these scenarios never drop a scanner by themselves, so the client went on with a scanner that the server had
+  \* exhausted, closed on request or closed with its "no more results"
+  /\ deadReq' = (IF T[i].ev = "scanStart" THEN FALSE ELSE deadReq \/ T[i].ev = "scanUnknown")
   /\ LET e == T[i] IN
      CASE e.ev = "scanStart" -> /\ cfg' = [rows |-> e.rows, start |-> e.start, stop |-> e.stop, reversed |-> e.reversed, partial |-> e.partial]
                                 /\ outs' = <<>> /\ disturbed' = FALSE /\ endOpen' = <<>>
@@ -41,5 +45,6 @@ RowsOK ==
     /\ (Ended /\ ~disturbed) => Len(m) = Len(Expected)
 ErrorOnceThenEOF == \A j \in 1..Len(outs) : outs[j].kind # "row" => \A k \in (j + 1)..Len(outs) : outs[k].kind = "eof"
 NothingLeftOpen == endOpen # <<>> => endOpen[1] = <<>>
+NoRequestOnADeadScanner == ~deadReq
 Accepted == TLCGet("stats").diameter = Len(T) + 1
 =============================================================================
